@@ -94,7 +94,7 @@ def do(proj, req):
             return location(proj, text, tuple(pos), fn)
         if kind == 'assist':
             p, names = assist(proj, text, tuple(pos), fn)
-            return [p, [n for n in names if n not in BI]]
+            return [p, [n for n in names if n not in BI and not n.startswith('__')]]
     except Exception as e:
         return 'EXC:' + type(e).__name__
 
